@@ -28,15 +28,15 @@ NOT_DECIDED = ["MPS/MPO, PEPS and environment containers, numpy save/load and HD
 DTYPES = ('float64', 'complex128', 'float32', 'complex64', 'bool')
 
 
-def make_real_tensor(V, sym, nd, lt, trans, dtype, fermionic=False, diag=False, fused=False):
+def make_real_tensor(V, sym, nd, lt, trans, dtype, fermionic=False, diag=False, fused=False, stem='a', signs=None):
     import yastn
     from yastn.tensor import Tensor
     from yastn.tensor._merging import _Fusion
     cfg = yastn.make_config(sym=sym_class(sym), fermionic=fermionic, default_dtype='float64')
-    signs = tuple(V.sign(f"a_s{l}") for l in range(nd))
+    signs = tuple(V.sign(f"{stem}_s{l}") for l in range(nd)) if signs is None else tuple(signs)
     if diag:
         V.assume(signs[0] == -signs[1])
-    struct, slices = sym_struct(V, sym, signs, lt, stem='a', diag=diag)
+    struct, slices = sym_struct(V, sym, signs, lt, stem=stem, diag=diag)
     vals = [1.5, -2.0, 0.25, 3.0, -0.5]
     if dtype.startswith('complex'):
         data = np.array([complex(v, -v / 2) for v in vals], dtype=dtype)
@@ -202,6 +202,167 @@ def h_split_combine(V, depth, ndata):
         V.check('combine-accepts-bare-array', same(d, V.call(combine_data_and_meta, dd, mm)))
 
 
+def concrete_tensor(sym, signs, seed, dtype='float64', trans=None):
+    """ a real tensor with concrete structure and data (containers do not look inside tensors: one symbolic tensor per container suffices) """
+    import yastn
+    from contracts.c01 import make_leg, FULL
+    cfg = yastn.make_config(sym=sym_class(sym), default_dtype='float64')
+    cfg.backend.random_seed(seed)
+    legs = [make_leg(sym, s_, FULL if (k + seed) % 2 == 0 else 0b0111) for k, s_ in enumerate(signs)]
+    a = yastn.rand(config=cfg, legs=legs, dtype=dtype)
+    if trans is not None:
+        a = a.transpose(trans)
+    return a
+
+
+def same_tensor(V, name, a, b):
+    """ obligations: b is a faithful reconstruction of tensor a (every field, dtype and values) """
+    from yastn.tensor import Tensor
+    V.check(f'{name}:is-a-tensor', isinstance(b, Tensor))
+    if not isinstance(b, Tensor):
+        return
+    V.check(f'{name}:struct-slices-history-restored', deep_eq(tuple(b.struct), tuple(a.struct))
+            and deep_eq(tuple(tuple(x) for x in b.slices), tuple(tuple(x) for x in a.slices))
+            and deep_eq(tuple(tuple(x) for x in b.hfs), tuple(tuple(x) for x in a.hfs)) and b.mfs == a.mfs and b.trans == a.trans and b.isdiag == a.isdiag)
+    V.check(f'{name}:configuration-restored', b.config.sym is a.config.sym and b.config.fermionic == a.config.fermionic)
+    V.check(f'{name}:dtype-and-values-restored', str(np.asarray(b._data).dtype) == str(np.asarray(a._data).dtype)
+            and np.asarray(b._data).shape == np.asarray(a._data).shape and bool(np.array_equal(np.asarray(b._data), np.asarray(a._data))))
+
+
+def h_mps_container(V, sym, N, nr_phys, level, block, cls_name, dtype, how):
+    """ MpsMpoOBC / MpoPBC: to_dict -> yastn.from_dict / cls.from_dict restores N, nr_phys, factor, central block and every tensor """
+    import yastn
+    from yastn import YastnError
+    from yastn.tn.mps import MpsMpoOBC, MpoPBC
+    cls = {'MpsMpoOBC': MpsMpoOBC, 'MpoPBC': MpoPBC}[cls_name]
+    other = MpoPBC if cls is MpsMpoOBC else MpsMpoOBC
+    how_sel = how
+    psi = cls(N, nr_phys=nr_phys)
+    for n in range(N):
+        tr = None if n % 2 == 0 else tuple(reversed(range(2 + nr_phys)))
+        sg = (-1, 1, 1, -1)[:2 + nr_phys]
+        # containers do not look inside tensors: one tensor with symbolic structure per container, the others concrete
+        psi.A[n] = make_real_tensor(V, sym, 2 + nr_phys, 1, tr, dtype, stem=f"t{n}", signs=sg) if n == 0 else concrete_tensor(sym, sg, n, dtype, tr)
+    if block is not None:
+        psi.pC = block
+        psi.A[block] = concrete_tensor(sym, (-1, 1), 7, dtype)
+    psi.factor = 2.5 if level >= 2 else V.real('factor')
+    d = V.call(psi.to_dict, level=level)
+    V.check('dict-announces-class-and-version', d['type'] == cls_name and d['dict_ver'] == 1)
+    snap = dict(d)
+    snapA = dict(d['A'])
+    for how, fn in (('yastn.from_dict', yastn.from_dict), ('cls.from_dict', cls.from_dict)):
+        if how_sel != how:
+            continue
+        out = V.outcome(fn, d)
+        V.check(f'{how}:accepts-what-to_dict-produced', out.exc is None)
+        if out.exc is not None:
+            continue
+        phi = out.value
+        V.check(f'{how}:class-N-nr_phys-central-block-restored', type(phi) is cls and phi.N == N and phi.nr_phys == nr_phys and phi.pC == block)
+        V.check(f'{how}:factor-restored', phi.factor == psi.factor)
+        V.check(f'{how}:same-entries', sorted(phi.A, key=str) == sorted(psi.A, key=str))
+        for k in psi.A:
+            if k in phi.A:
+                same_tensor(V, f'{how}:A[{k}]', psi.A[k], phi.A[k])
+    V.check('caller-dictionary-not-modified', set(d) == set(snap) and all(d[k] is snap[k] for k in snap) and set(d['A']) == set(snapA)
+            and all(d['A'][k] is snapA[k] for k in snapA))
+    out = V.outcome(other.from_dict, d)
+    V.check('other-class-refuses-the-dictionary', out.raised(YastnError))
+    # legacy dictionaries (no dict_ver): sites only, N and factor optional
+    if block is None and how_sel == 'legacy':
+        legacy = {'nr_phys': nr_phys, 'A': {n: d['A'][n] for n in range(N)}}
+        out = V.outcome(cls.from_dict, legacy)
+        V.check('legacy-dictionary-accepted', out.exc is None and out.value.N == N and out.value.nr_phys == nr_phys and out.value.factor == 1
+                and sorted(out.value.A) == list(range(N)))
+
+
+def geometry_of(kind, par):
+    import yastn.tn.fpeps as fp
+    if kind == 'square':
+        return fp.SquareLattice(dims=par[0], boundary=par[1])
+    if kind == 'checkerboard':
+        return fp.CheckerboardLattice()
+    if kind == 'rect':
+        return fp.RectangularUnitcell(pattern=par)
+    return fp.TriangularLattice(dims=par[0], boundary=par[1], full_patch=par[2])
+
+
+def same_geometry(V, name, g, g2):
+    V.check(f'{name}:class-dims-boundary', type(g2) is type(g) and g2.dims == g.dims and g2.boundary == g.boundary
+            and getattr(g2, 'full_patch', None) == getattr(g, 'full_patch', None))
+    V.check(f'{name}:sites-and-bonds', g2.sites() == g.sites() and g2.bonds() == g.bonds())
+    win = [(x, y) for x in range(-2, g.Nx + 3) for y in range(-2, g.Ny + 3)]
+    def idx(gg, s):
+        try:
+            return gg.site2index(s)
+        except Exception as e:        # noqa
+            return type(e).__name__
+    V.check(f'{name}:site2index-on-a-window', all(idx(g, s) == idx(g2, s) for s in win))
+
+
+def h_lattice_container(V, kind, par, cls_name, level, sym):
+    """ Lattice / Peps / Peps2Layers: to_dict -> from_dict restores the geometry (class, dims, boundary, patch mode) and every tensor """
+    import yastn
+    import yastn.tn.fpeps as fp
+    from yastn import YastnError
+    g = geometry_of(kind, par)
+    cls = {'Lattice': fp.Lattice, 'Peps': fp.Peps}[cls_name if cls_name != 'Peps2Layers' else 'Peps']
+    net = cls(g)
+    sites = g.sites()
+    filled = sites[::2] if len(sites) > 1 else sites              # leave some sites empty
+    for i, st in enumerate(filled[:3]):
+        tr = None if i % 2 == 0 else (1, 0, 2, 3, 4)
+        # (the container does not inspect ranks: a rank-3 tensor with symbolic structure keeps the number of paths small)
+        net[st] = make_real_tensor(V, sym, 3, 1, None, 'float64', stem=f"t{i}", signs=(-1, 1, 1)) if i == 0 else concrete_tensor(sym, (-1, 1, 1, -1, 1), i, 'float64', tr)
+    obj = net
+    if cls_name == 'Peps2Layers':
+        bra = fp.Peps(g)
+        for i, st in enumerate(filled[:2]):
+            bra[st] = concrete_tensor(sym, (-1, 1, 1, -1, 1), 10 + i)
+        obj = fp.Peps2Layers(ket=net, bra=bra)
+    d = V.call(obj.to_dict, level=level)
+    V.check('dict-announces-class', d['type'] == cls_name and d['dict_ver'] == 1)
+    out = V.outcome(yastn.from_dict, d)
+    V.check('from_dict-accepts-what-to_dict-produced', out.exc is None)
+    if out.exc is not None:
+        return
+    new = out.value
+    V.check('class-restored', type(new) is type(obj))
+    pairs = [(net, new)] if cls_name != 'Peps2Layers' else [(obj.ket, new.ket), (obj.bra, new.bra)]
+    for li, (x, y) in enumerate(pairs):
+        same_geometry(V, f'layer{li}', x.geometry, y.geometry)
+        V.check(f'layer{li}:same-filled-sites', sorted(k for k, v in x._site_data.items() if v is not None) == sorted(k for k, v in y._site_data.items() if v is not None))
+        for k, v in x._site_data.items():
+            if v is not None and y._site_data.get(k) is not None:
+                same_tensor(V, f'layer{li}:site_data[{k}]', v, y._site_data[k])
+    wrong = fp.Peps if cls_name == 'Lattice' else fp.Lattice
+    out = V.outcome(wrong.from_dict, d)
+    V.check('other-class-refuses-the-dictionary', out.raised(YastnError))
+
+
+def h_double_peps_tensor(V, sym, level, with_op, trans):
+    from yastn.tn.fpeps import DoublePepsTensor
+    import yastn
+    ket = make_real_tensor(V, sym, 5, 1, None, 'float64', stem='k', signs=(-1, 1, 1, -1, 1))
+    bra = concrete_tensor(sym, (-1, 1, 1, -1, 1), 3)
+    op = concrete_tensor(sym, (1, -1), 4) if with_op else None
+    swaps = {'a': 1, 'b': (0, 1)}
+    x = DoublePepsTensor(bra=bra, ket=ket, trans=trans, op=op, swaps=dict(swaps))
+    d = V.call(x.to_dict, level=level)
+    out = V.outcome(yastn.from_dict, d)
+    V.check('from_dict-accepts-what-to_dict-produced', out.exc is None)
+    if out.exc is not None:
+        return
+    y = out.value
+    V.check('class-transposition-and-swaps-restored', type(y) is DoublePepsTensor and tuple(y.trans) == tuple(x.trans) and y.swaps == x.swaps and y.swaps is not x.swaps)
+    same_tensor(V, 'ket', x.ket, y.ket)
+    same_tensor(V, 'bra', x.bra, y.bra)
+    V.check('operator-restored-iff-present', (y.op is None) == (x.op is None))
+    if with_op and y.op is not None:
+        same_tensor(V, 'op', x.op, y.op)
+
+
 def h_meta_vector(V, sym, case, level):
     """
     Serialising against a supplied meta: the data vector, read back THROUGH THE META, is the tensor that was serialised --
@@ -232,8 +393,41 @@ def h_meta_vector(V, sym, case, level):
         V.check(f'{name}:vector-has-the-size-the-meta-announces', len(vec) == ref.size)
 
 
-def units(tier):
+def container_units(tier):
     U = []
+    th = tier == 'thorough'
+    syms = ('dense', 'Z2', 'U1', 'U1xU1xZ2') if th else ('Z2', 'U1')
+    for sym in syms:
+        for level in (0, 1, 2):
+            for cls_name, nr_phys in (('MpsMpoOBC', 1), ('MpsMpoOBC', 2), ('MpoPBC', 2)):
+                for N in (1, 2, 3):
+                    for block in [None] + ([(0, 1), (-1, 0)] if cls_name == 'MpsMpoOBC' else []):
+                        if block is not None and (N != 2 and not th):
+                            continue
+                        for dtype in (('float64', 'complex128') if (th or (N == 2 and block is None)) else ('float64',)):
+                            for how in ('yastn.from_dict', 'cls.from_dict') + (('legacy',) if block is None else ()):
+                                U.append(('h_mps_container', f"{sym},{cls_name},nr_phys={nr_phys},N={N},level={level},block={block},{dtype},{how}",
+                                          dict(sym=sym, N=N, nr_phys=nr_phys, level=level, block=block, cls_name=cls_name, dtype=dtype, how=how)))
+    geos = [('square', ((1, 1), 'obc')), ('square', ((2, 3), 'obc')), ('square', ((2, 3), 'infinite')), ('square', ((3, 2), 'cylinder')),
+            ('checkerboard', None), ('rect', [[0, 1], [1, 0]]), ('rect', [[0, 1, 2], [1, 2, 0], [2, 0, 1]]), ('rect', {(0, 0): 0, (0, 1): 1}),
+            ('triangular', ((3, 3), 'infinite', False)), ('triangular', ((3, 3), 'infinite', True)), ('triangular', ((2, 4), 'obc', True)),
+            ('triangular', ((3, 2), 'cylinder', True)), ('triangular', ((6, 6), 'infinite', True))]
+    for kind, par in geos:
+        for cls_name in ('Lattice', 'Peps', 'Peps2Layers'):
+            for level in ((0, 1, 2) if th else (1, 2)):
+                if cls_name == 'Peps2Layers' and level == 1 and not th:
+                    continue
+                U.append(('h_lattice_container', f"{kind},{par},{cls_name},level={level}", dict(kind=kind, par=par, cls_name=cls_name, level=level, sym='U1')))
+    for sym in syms:
+        for level in (0, 2):
+            for with_op in (False, True):
+                for trans in ((0, 1, 2, 3), (3, 0, 1, 2)):
+                    U.append(('h_double_peps_tensor', f"{sym},level={level},op={with_op},trans={trans}", dict(sym=sym, level=level, with_op=with_op, trans=trans)))
+    return U
+
+
+def units(tier):
+    U = container_units(tier)
     th = tier == 'thorough'
     syms = ALL_SYMS
     for sym in syms:
